@@ -8,6 +8,7 @@ require (
 	github.com/google/uuid v1.6.0
 	github.com/klauspost/compress v1.18.0
 	github.com/pierrec/lz4/v4 v4.1.22
+	go.opentelemetry.io/otel/trace v1.35.0
 	pgregory.net/rapid v1.3.0
 )
 
@@ -15,7 +16,6 @@ require (
 	github.com/go-faster/errors v0.7.1 // indirect
 	github.com/segmentio/asm v1.2.0 // indirect
 	go.opentelemetry.io/otel v1.35.0 // indirect
-	go.opentelemetry.io/otel/trace v1.35.0 // indirect
 	golang.org/x/sys v0.30.0 // indirect
 )
 
